@@ -390,12 +390,35 @@ PyASTGenerator = Callable[
 ####################
 
 
+_CHAINED_TMP_PREFIX = "chained"
+
+
 def _chain_py_ast(
     *genned: GeneratedPyAST[T_pynode],
 ) -> tuple[Iterable[PyASTNode], PyASTStream[T_pynode]]:
-    """Chain a sequence of generated Python ASTs into a tuple of dependency nodes"""
-    deps = chain.from_iterable(n.dependencies for n in genned)
-    nodes = (n.node for n in genned)
+    """Chain a sequence of generated Python ASTs into a tuple of dependency nodes
+    and expression nodes.
+
+    All of the dependency statements are emitted before the expression which combines
+    the nodes, so the value of any node followed by a sibling with dependencies is
+    assigned to a temporary first. Otherwise the side effects of the later sibling
+    would happen before the earlier sibling is evaluated."""
+    all_deps = [list(n.dependencies) for n in genned]
+    last_with_deps = max((i for i, d in enumerate(all_deps) if d), default=-1)
+    deps: list[PyASTNode] = []
+    nodes: list[T_pynode] = []
+    for i, (n, n_deps) in enumerate(zip(genned, all_deps)):
+        deps.extend(n_deps)
+        if i < last_with_deps and not isinstance(n.node, ast.Constant):
+            tmp_name = genname(_CHAINED_TMP_PREFIX)
+            deps.append(
+                ast.Assign(
+                    targets=[ast.Name(id=tmp_name, ctx=ast.Store())], value=n.node
+                )
+            )
+            nodes.append(cast("T_pynode", ast.Name(id=tmp_name, ctx=ast.Load())))
+        else:
+            nodes.append(n.node)
     return deps, nodes
 
 
@@ -2537,16 +2560,18 @@ def _invoke_to_py_ast(ctx: GeneratorContext, node: Invoke) -> GeneratedPyAST[ast
     assert node.op == NodeOp.INVOKE
 
     fn_ast = gen_py_ast(ctx, node.fn)
-    args_deps, args_nodes = _collection_ast(ctx, node.args)
+    args_deps, (fn_node, *args_nodes) = _chain_py_ast(
+        fn_ast, *map(partial(gen_py_ast, ctx), node.args)
+    )
     kwargs_deps, kwargs_nodes = _kwargs_ast(ctx, node.kwargs)
 
     return GeneratedPyAST(
         node=ast.Call(
-            func=fn_ast.node,
+            func=fn_node,
             args=list(args_nodes),
             keywords=list(kwargs_nodes),
         ),
-        dependencies=list(chain(fn_ast.dependencies, args_deps, kwargs_deps)),
+        dependencies=list(chain(args_deps, kwargs_deps)),
     )
 
 
@@ -2711,12 +2736,9 @@ def __fn_recur_to_py_ast(
     """Return a Python AST node for `recur` occurring inside a `fn*`."""
     assert node.op == NodeOp.RECUR
     assert ctx.recur_point.is_variadic is not None
-    recur_nodes: list[ast.expr] = []
-    recur_deps: list[PyASTNode] = []
-    for expr in node.exprs:
-        expr_ast = gen_py_ast(ctx, expr)
-        recur_nodes.append(expr_ast.node)
-        recur_deps.extend(expr_ast.dependencies)
+    recur_deps, recur_nodes = _chain_py_ast(
+        *map(partial(gen_py_ast, ctx), node.exprs)
+    )
 
     return GeneratedPyAST(
         node=ast.Call(
@@ -2734,12 +2756,9 @@ def __deftype_method_recur_to_py_ast(
 ) -> GeneratedPyAST[ast.expr]:
     """Return a Python AST node for `recur` occurring inside a `deftype*` method."""
     assert node.op == NodeOp.RECUR
-    recur_nodes: list[ast.expr] = []
-    recur_deps: list[PyASTNode] = []
-    for expr in node.exprs:
-        expr_ast = gen_py_ast(ctx, expr)
-        recur_nodes.append(expr_ast.node)
-        recur_deps.extend(expr_ast.dependencies)
+    recur_deps, recur_nodes = _chain_py_ast(
+        *map(partial(gen_py_ast, ctx), node.exprs)
+    )
 
     this_entry = ctx.symbol_table.find_symbol(ctx.current_this)
     assert this_entry is not None, "Field type local must have this"
@@ -2770,14 +2789,15 @@ def __loop_recur_to_py_ast(
     assert node.op == NodeOp.RECUR
     assert ctx.recur_point.binding_names is not None
 
-    recur_deps: list[PyASTNode] = []
-    recur_targets: list[ast.expr] = []
-    recur_exprs: list[ast.expr] = []
-    for name, expr in zip(ctx.recur_point.binding_names, node.exprs):
-        expr_ast = gen_py_ast(ctx, expr)
-        recur_deps.extend(expr_ast.dependencies)
-        recur_targets.append(ast.Name(id=name, ctx=ast.Store()))
-        recur_exprs.append(expr_ast.node)
+    recur_targets: list[ast.expr] = [
+        ast.Name(id=name, ctx=ast.Store()) for name in ctx.recur_point.binding_names
+    ]
+    chained_deps, chained_exprs = _chain_py_ast(
+        *map(partial(gen_py_ast, ctx), node.exprs)
+    )
+    recur_deps: list[PyASTNode] = list(chained_deps)
+    recur_exprs: list[ast.expr] = list(chained_exprs)
+    recur_targets = recur_targets[: len(recur_exprs)]
 
     if len(recur_targets) == 1:
         assert len(recur_exprs) == 1
@@ -3413,20 +3433,22 @@ def _interop_call_to_py_ast(
     assert node.op == NodeOp.HOST_CALL
 
     target_ast = gen_py_ast(ctx, node.target)
-    args_deps, args_nodes = _collection_ast(ctx, node.args)
+    args_deps, (target_node, *args_nodes) = _chain_py_ast(
+        target_ast, *map(partial(gen_py_ast, ctx), node.args)
+    )
     kwargs_deps, kwargs_nodes = _kwargs_ast(ctx, node.kwargs)
 
     return GeneratedPyAST(
         node=ast.Call(
             func=ast.Attribute(
-                value=target_ast.node,
+                value=target_node,
                 attr=munge(node.method, allow_builtins=True),
                 ctx=ast.Load(),
             ),
             args=list(args_nodes),
             keywords=list(kwargs_nodes),
         ),
-        dependencies=list(chain(target_ast.dependencies, args_deps, kwargs_deps)),
+        dependencies=list(chain(args_deps, kwargs_deps)),
     )
 
 
